@@ -179,7 +179,18 @@ def main():
         rnd = random.Random(seed * 7919 + rd)
         nthreads = 8 if mode == "stress" else 2
         progs = [make_prog(rnd, chr(ord("a") + t), 40 if mode == "stress" else rnd.choice((2, 3, 4))) for t in range(nthreads)]
-        if rnd.random() < 0.5:
+        # fresh objects every round: the URL strings carry the round number, so first accesses happen again
+        tagq = f"r{seed}x{rd}"
+        progs = [[(op[0], op[1] + ("&" if "?" in op[1] else "?") + tagq) + tuple(op[2:]) if op[0] in ("ctor", "read", "derive") else op
+                  for op in p] for p in progs]
+        shape = rnd.random()
+        if shape < 0.35:
+            # phase-shifted round: every thread runs the SAME operations rotated by its index, so one thread derives from a
+            # shared object while another reads it for the first time
+            base = progs[0]
+            progs = [[(op[0], chr(ord("a") + t)) + tuple(op[2:]) if op[0] == "bigquote" else op
+                      for op in (base[t % len(base):] + base[:t % len(base)])] for t in range(nthreads)]
+        elif shape < 0.7:
             # collision-prone round: every thread runs the SAME operations (first access to the same shared, freshly derived
             # objects happens in several threads at once); only the big-quote markers stay per thread
             progs = [[(op[0], chr(ord("a") + t)) + tuple(op[2:]) if op[0] == "bigquote" else op for op in progs[0]]
